@@ -14,7 +14,7 @@ class C38(Prop):
             "re-create; one script in six watches a symlink to a file in the same directory that is swapped atomically (the "
             "rename names the watched file), two in six use the Kubernetes ConfigMap layout (conf.yml -> ..data/conf.yml, "
             "..data -> ..vN/, updated by renaming a new ..data over the old one: no event ever names the watched file, "
-            "only its resolved path changes; classes k8s-*); one script in four saves again 1-4 ms after a signal; script 0 is the witness of the original "
+            "only its resolved path changes; classes k8s-*); one in six reaches the file's directory through a symlink (classes dirlink-*); one script in four saves again 1-4 ms after a signal; script 0 is the witness of the original "
             "defect (two writes 400 ms apart). Observed: signal times. Non-trivial = a script with more than one operation")
     trusted_base = ["Coq 8.16.1 kernel + VM", "in-package driver zz_verif_c38_test.go", "inotify/fsnotify deliver one event per "
                     "single-write append / rename (the driver only uses such operations)", "wall-clock tolerance of 250 ms; every "
